@@ -132,7 +132,7 @@ def job_batch(prop, seed, cls, cfg, run_indices, timeout_s):
                     continue
                 sh = site_hash(v["site"])
                 agg["site_counts"][sh] += 1
-                if per_site_kept[sh] < 2:
+                if per_site_kept[sh] < cfg.get("keep_per_site", 2):
                     per_site_kept[sh] += 1
                     agg["violations"].append(
                         {
@@ -627,4 +627,48 @@ def run_replay(path: str):
         print("REPLAY-MISMATCH: a different violation was produced:", out["violations"][0]["site"])
         return 3
     print("replay: no violation reproduced (property holds on this file)")
+    return 0
+
+
+def run_triage(prop, tier, seed, runs, workers, group_by=None):
+    """Development aid: run a batch, keep every violation, print them grouped by
+    scenario features (to find root causes behind many symptoms)."""
+    mod = prop_module(prop)
+    classes = mod.classes(tier)
+    ncls = len(classes)
+    cfg = {"tier": tier, "n_classes": ncls, "fault_every": getattr(mod, "FAULT_EVERY", 5), "samples_per_job": 0, "seed": seed, "keep_per_site": 10**9}
+    pools = Pools(workers)
+    out = []
+    try:
+        futs = []
+        per_class = [[i for i in range(c, runs, ncls)] for c in range(ncls)]
+        batch = getattr(mod, "BATCH", 400)
+        max_len = max(len(x) for x in per_class)
+        for start in range(0, max_len, batch):
+            for c in range(ncls):
+                idx = per_class[c][start : start + batch]
+                if idx:
+                    futs.append(pools.submit(c, job_batch, prop, seed, classes[c], cfg, idx, 3000))
+        for f in futs:
+            r = f.result()
+            if "error" in r:
+                raise HarnessError(r["error"])
+            out.extend(r["violations"])
+    finally:
+        pools.close()
+    path = os.path.join(ROOT, "replays", f"triage-{prop}.json")
+    write_json(path, out)
+    keys = group_by or ["check", "outcome", "exc", "key_kind", "key_repr", "null_keys", "mask", "fault"]
+    groups = {}
+    for v in out:
+        d = dict(v.get("features", {}))
+        d.update(v["site"])
+        k = tuple(str(d.get(x, "-")) for x in keys)
+        g = groups.setdefault(k, {"n": 0, "ops": Counter(), "ex": v})
+        g["n"] += 1
+        g["ops"][d.get("op")] += 1
+    print(f"{len(out)} violations; grouped by {keys}")
+    for k, g in sorted(groups.items(), key=lambda kv: -kv[1]["n"]):
+        print(f"{g['n']:5d} {' | '.join(k)}  ops={dict(g['ops'].most_common(6))} run={g['ex']['run_index']}")
+        print(f"        exp={g['ex']['expected'][:150]}  act={g['ex']['actual'][:150]}")
     return 0
